@@ -252,7 +252,7 @@ def phi_cover(prog: Program, res: Result) -> None:
 def check(prog: Program, res: Result, tier: str) -> None:
     res.explanation = __doc__.split("\n\n", 1)[1]
     res.assumptions = ["ktensor.normalize only re-parameterises (C08); tt_loglikelihood evaluates the Poisson log-likelihood of its arguments"]
-    res.floors = {"PROJ": 2, "OBJ": 3, "TRACE": 12, "KKT": 3, "LOOP": 5, "START": 4, "PHI": 1, "LL": 4}
+    res.floors = {"PROJ": 2, "OBJ": 3, "TRACE": 12, "KKT": 3, "LOOP": 5, "START": 4, "PHI": 1, "LL": 8}
     proj(prog, res)
     phi_cover(prog, res)
     obj_order(prog, res)
@@ -356,6 +356,33 @@ def ll_mask(prog: Program, res: Result) -> None:
                         if d:
                             selectors.append((ast.unparse(sl), d, sl))
             branch = "sparse" if sparse_branch else "dense"
+            # the argument of the log is the model value itself: not clamped, clipped or shifted
+            adesc = f"{branch} branch: the logarithm is taken of the model value itself, not of a clamped or shifted one (log term #{k + 1})"
+            defs_of = {}
+            for a_ in ast.walk(fn):
+                if isinstance(a_, ast.Assign) and len(a_.targets) == 1 and isinstance(a_.targets[0], ast.Name):
+                    defs_of.setdefault(a_.targets[0].id, []).append(a_.value)
+
+            def clamp_in(e, depth=0):
+                for x in ast.walk(e):
+                    if isinstance(x, ast.Call) and (dotted(x.func) or "").split(".")[-1] in ("maximum", "fmax", "clip", "where", "nan_to_num"):
+                        return x
+                    if isinstance(x, ast.BinOp) and isinstance(x.op, ast.Add) and any(
+                            isinstance(y, ast.Constant) or (isinstance(y, ast.Name) and y.id.lower().startswith("eps")) for y in (x.left, x.right)):
+                        return x
+                    if isinstance(x, ast.Name) and depth < 3:
+                        for d in defs_of.get(x.id, []):
+                            r = clamp_in(d, depth + 1)
+                            if r is not None:
+                                return r
+                return None
+            cl = clamp_in(lg.args[0]) if lg.args else None
+            if cl is not None:
+                res.bad("LL", short, adesc, prog.loc(fi, cl),
+                        f"`{ast.unparse(cl)[:60]}` bounds the model value away from zero before the logarithm: a model that predicts 0 for a positive "
+                        "count then has a finite objective, so the line search accepts steps the Poisson likelihood forbids")
+            else:
+                res.ok("LL", short, adesc, prog.loc(fi, lg))
             desc = f"{branch} branch: the entries contributing x*log(m) are selected by the data, not by the model (log term #{k + 1})"
             by_model = [s_ for s_ in selectors if s_[1] & model_side]
             if by_model:
